@@ -34,7 +34,7 @@ extern int mpt_notify_wait(MPT_STRUCT(notify) *no, int what, int timeout)
 	MPT_STRUCT(buffer) *buf;
 	MPT_INTERFACE(input) *curr, **pslot, **slot;
 	size_t fdmax, used;
-	int i, ret, act;
+	int i, ret, act, cnt;
 	
 	if (!no) {
 		return MPT_ERROR(BadArgument);
@@ -103,12 +103,14 @@ extern int mpt_notify_wait(MPT_STRUCT(notify) *no, int what, int timeout)
 		ev[act++].revents = 0;
 	}
 	
-	if ((act = poll(ev, act, timeout)) <= 0) {
+	cnt = act;
+	if ((act = poll(ev, cnt, timeout)) <= 0) {
 		return (buf->_used = used) ? (int) (used / sizeof(curr)) : act;
 	}
 	slot = (MPT_INTERFACE(input) **) ev;
 	
-	for (i = 0, fdmax = 0; i < act; i++) {
+	/* poll() returns the number of ready entries, they may be anywhere in the set */
+	for (i = 0, fdmax = 0; i < cnt; i++) {
 		if (!(ret = ev[i].revents & what)) {
 			continue;
 		}
